@@ -37,6 +37,10 @@ def jobs(pid, tier, seed):
         out.append({"kind": "classifier"})
     if pid == "C16":
         out += [{"kind": "crashimg", "seed": seed * 1000 + i} for i in range(16 if tier == "quick" else 200)]
+    if pid in ("C01", "C02", "C03", "C05", "C07", "C08"):
+        # database files with content, written by the reference tree (mon/fixtures.py)
+        from ..fixtures import SPECS
+        out += [{"kind": "fixture", "name": nm, "seed": seed * 1000 + i} for nm in sorted(SPECS) for i in range(12 if tier == "quick" else 200)]
     if pid in ("C07", "C18"):
         out += [{"kind": "bulk_list", "n": n, "allow_list": a} for n in (1010, 1200) for a in (1, 0)]
     if pid in ("C01", "C02"):
@@ -414,6 +418,23 @@ def run_bulk_list(pid, job, acc):
         rmtree(wd)
 
 
+def run_fixture(pid, job, acc):
+    from .. import fixtures, diff
+    recA, recB, cont, cnt = fixtures.run_pair(job["name"], job["seed"])
+    acc.steps += cnt["steps"]
+    acc.frames += cnt["frames"]
+    acc.cases += 1
+    acc.ev["fixture_pair"] += 1
+    acc.distinct.add("fixture:%s:%d" % (job["name"], job["seed"]))
+    a, b = fixtures.projection(pid, recA, cont), fixtures.projection(pid, recB, cont)
+    acc.ev["fixture_projection_entries"] += len(a["steps"])
+    d = diff.first_difference(a, b)
+    if d:
+        acc.add_violation({"property": pid, "kind": "fixture", "case": "fixture:%s:%d" % (job["name"], job["seed"]), "job": job,
+                           "violation": {"props": [pid], "kind": "behaviour on database files written by the reference tree differs from behaviour on files this tree wrote itself (same prefix history, same continuation)",
+                                         "detail": {"fixture": job["name"], "first_difference": d, "left=own files, right=reference files": True}, "step": None}})
+
+
 def new_workdir_root():
     from ..engine import scratch_root
     return scratch_root()
@@ -426,6 +447,8 @@ def run_job(pid, job, acc):
         return run_lazy(pid, job, acc)
     if job["kind"] == "bulk_list":
         return run_bulk_list(pid, job, acc)
+    if job["kind"] == "fixture":
+        return run_fixture(pid, job, acc)
     if job["kind"] == "classifier":
         return run_classifier_product(acc)
     if job["kind"] == "crashimg":
@@ -458,6 +481,10 @@ def replay(pid, rep):
     if rep.get("kind") == "bulk_list":
         acc = Acc(pid)
         run_bulk_list(pid, rep["job"], acc)
+        return acc
+    if rep.get("kind") == "fixture":
+        acc = Acc(pid)
+        run_fixture(pid, rep["job"], acc)
         return acc
     if rep.get("kind") == "classifier":
         acc = Acc(pid)
